@@ -32,11 +32,17 @@ SPECDIR = os.path.join(SPEC, 'rolllog')
 ALL_DEFECTS = ('overwrite', 'refresh_skip', 'frac_ts')
 PROPS = ('C13_ExactlyOnceInOrder', 'C13_Budget', 'C13_NewestKept', 'C13_NoOverwrite')
 PROOFS = {'quick': ['RollLog_quick_w', 'RollLog_quick_r1', 'RollLog_quick_r2', 'RollLog_quick_re', 'RollLog_quick_2r',
-                    'RollLog_quick_bin'],
+                    'RollLog_quick_bin', 'RollLog_quick_nf', 'RollLog_quick_nf2'],
           'thorough': ['RollLog_thorough_w', 'RollLog_thorough_r1', 'RollLog_thorough_r2', 'RollLog_thorough_re',
-                       'RollLog_thorough_2r', 'RollLog_thorough_s3', 'RollLog_thorough_bin']}
-COVERS = {'quick': ['RollLogCover_r1', 'RollLogCover_w', 'RollLogCover_r2', 'RollLogCover_re', 'RollLogCover_bin'],
-          'thorough': ['RollLogCover_r1', 'RollLogCover_w', 'RollLogCover_r2', 'RollLogCover_re', 'RollLogCover_bin']}
+                       'RollLog_thorough_2r', 'RollLog_thorough_s3', 'RollLog_thorough_bin', 'RollLog_thorough_nf',
+                       'RollLog_thorough_nf2']}
+COVERS = {'quick': ['RollLogCover_r1', 'RollLogCover_w', 'RollLogCover_r2', 'RollLogCover_re', 'RollLogCover_bin',
+                    'RollLogCover_nf'],
+          'thorough': ['RollLogCover_r1', 'RollLogCover_w', 'RollLogCover_r2', 'RollLogCover_re', 'RollLogCover_bin',
+                       'RollLogCover_nf']}
+# designs the property rules out that were never in the code (non-vacuity of the formulas; a counterexample reproduced by the
+# code is a violation): base configuration per switch
+DESIGN_MUTATIONS = {'skip_empty': 'RollLogExhibitNF'}
 LINE_MODES = ('txt', 'json', 'binl')
 
 
@@ -278,6 +284,28 @@ def run(ctx):
                 rep.note(f'counterexample of defect switch "{d}" is not reproduced by the code: the code does not '
                          f'have this deviation')
         rep.extra['defects_of_the_code_as_it_stands'] = present
+        for d, base in DESIGN_MUTATIONS.items():
+            n = sd.derive(base, f'Mutation_{d}', defects=[d])
+            res = run_tlc(sd.d, n, 'RollLogCover', workers=nw, timeout=1200)
+            rep.add_tlc(n, res, f'Defects = {{"{d}"}} (a design the property rules out): TLC must exhibit the counterexample')
+            if res.error or res.timed_out:
+                raise MachineryError(f'TLC failed on {n}: {res.error or "timeout"}')
+            path = path_of_counterexample(res.out) if res.violated else None
+            if not path:
+                raise MachineryError(f'the specification with Defects = {{{d}}} satisfies the C13 formulas: they are vacuous there')
+            got = []
+            for mode in LINE_MODES:
+                rr = H.replay_path(path, {}, mode)
+                rep.traces += 1
+                rep.case(('mut', d, mode))
+                got += [(mode, v) for v in rr['violations']]
+            for mode, (formula, text, sig, stepi) in got[:1]:
+                rep.violation(f'{formula}: {text} [TLC counterexample of the design "{d}" reproduced by the real code, mode {mode}]',
+                              {'labels': path[:stepi + 1], 'mode': mode, 'render': {'unit': 8, 'step': 1.0},
+                               'found_by': f'design mutation {d}', 'formula': formula}, sig)
+            rep.extra.setdefault('design_mutations', {})[d] = {
+                'tlc': res.violated, 'labels': [list(l) for l in path],
+                'real_code': 'reproduces it' if got else 'does not reproduce it (the code does not have this design)'}
         # ---- 3. spec -> code: transition cover with Defects = the code as it stands
         cov_futs = []
         for base in COVERS[tier]:
